@@ -285,7 +285,14 @@ func caretGap(angle float64) float64 {
 // next to the requested one, and never further away than rounding to the
 // nearest direction can be anywhere on the circle.
 func caretOK(got, want float64) (diff, tol float64, ok bool) {
+	// a caret is a line: (rise, run) and (-rise, -run) are the same slope,
+	// so angles are compared modulo pi (the directed comparison used before
+	// failed, in the thorough tier, on an angle 4.5e-6 beyond +90 degrees,
+	// where rise rounds to 0 and the library writes run = +1)
 	diff = angleDiff(got, want)
+	if math.Pi-diff < diff {
+		diff = math.Pi - diff
+	}
 	tol = math.Min(caretTol, caretGap(want)+1e-12)
 	return diff, tol, diff <= tol
 }
